@@ -1062,3 +1062,47 @@ Proof.
     rewrite (rdbytes (code :: id :: put16 (4 + lenN d)) d []); [reflexivity|lens; lia|lens; lia]. }
   rewrite Hs. cbn [rbind]. split; reflexivity.
 Qed.
+
+(* ------------------------------------------------------------------ *)
+(* L2TP SCCRQ as the LAC side builds it (pkg/l2tp/messages.go BuildSCCRQ: Message Type, Host Name, Assigned Tunnel ID, …),
+   parsed and handed to the LNS handler: the host name and the peer's tunnel id come back *)
+Definition sccrq_avps (host : bytes) (tid : N) (extra : list avp) : list avp :=
+  mkAvp true false 0 0 (put16 1) :: mkAvp true false 0 7 host :: mkAvp true false 0 9 (put16 tid) :: extra.
+Lemma decode_u16_put16 m h v t n : n < 65536 -> decode_u16 (mkAvp m h v t (put16 n)) = Ok n.
+Proof.
+  intros Hn. unfold decode_u16. cbn [a_value].
+  pose proof (rd16 [] n [] 0 2 eq_refl eq_refl Hn) as R. cbn [app] in R. rewrite app_nil_r in R. exact R.
+Qed.
+Lemma sccrq_roundtrip host tid extra :
+  tid < 65536 -> lenN host <=? 1017 = true -> wf_avps extra = true ->
+  forallb (fun a => negb ((a_vendor a =? 0) && ((a_type a =? 7) || (a_type a =? 9) || (a_type a =? 11)))) extra = true ->
+  parse_avps (build_avps (sccrq_avps host tid extra)) = Ok (sccrq_avps host tid extra) /\
+  sccrq_extract (sccrq_avps host tid extra) = Ok (Some tid) /\
+  option_map a_value (find_first 0 7 (sccrq_avps host tid extra)) = Some host.
+Proof.
+  intros Ht Hh Hx Hn. split; [|split].
+  - apply avps_roundtrip. unfold sccrq_avps, wf_avps. cbn [forallb]. unfold wf_avp at 1 2 3.
+    cbn [a_h a_vendor a_type a_value negb]. unfold wf_avps in Hx. rewrite Hx. lens. 
+    replace (2 <=? 1017) with true by reflexivity. rewrite Hh. destruct (tid <? 65536) eqn:E; [reflexivity|lia].
+  - unfold sccrq_extract, sccrq_avps. cbn [decode_msg_type a_vendor a_type a_value].
+    change (negb (0 =? 0) || negb (0 =? 0) || (lenN (put16 1) <? 2)) with false. cbv iota.
+    rewrite decode_u16_put16 by lia. cbn [rbind]. change (negb (1 =? 1)) with false. cbv iota.
+    unfold find_first. cbn [find a_vendor a_type]. 
+    change ((0 =? 0) && (0 =? 7)) with false. change ((0 =? 0) && (7 =? 7)) with true. cbv iota.
+    change ((0 =? 0) && (0 =? 9)) with false. change ((0 =? 0) && (7 =? 9)) with false. change ((0 =? 0) && (9 =? 9)) with true. cbv iota.
+    cbn [a_value]. change (lenN (put16 tid) <? 2) with false. cbv iota.
+    rewrite decode_u16_put16 by lia. cbn [rbind].
+    change ((0 =? 0) && (0 =? 11)) with false. change ((0 =? 0) && (7 =? 11)) with false. change ((0 =? 0) && (9 =? 11)) with false. cbv iota.
+    assert (Hf : find (fun a : avp => (a_vendor a =? 0) && (a_type a =? 11)) extra = None).
+    { clear -Hn. induction extra as [|a r IH]; [reflexivity|]. cbn [forallb find] in *.
+      apply andb_prop in Hn. destruct Hn as [Ha Hr]. rewrite (IH Hr).
+      destruct ((a_vendor a =? 0) && (a_type a =? 11)) eqn:E; [|reflexivity]. lia. }
+    rewrite Hf. reflexivity.
+  - unfold sccrq_avps, find_first. cbn [find a_vendor a_type].
+    change ((0 =? 0) && (0 =? 7)) with false. change ((0 =? 0) && (7 =? 7)) with true. reflexivity.
+Qed.
+Lemma sccrq_roundtrip_nonvacuous :
+  wf_avps [mkAvp true false 0 2 [1; 0]; mkAvp true false 0 10 (put16 8)] = true /\
+  lenN (build_avps (sccrq_avps [108; 97; 99; 49] 4242 [mkAvp true false 0 2 [1; 0]; mkAvp true false 0 10 (put16 8)])) = 42 /\
+  peer_rws (sccrq_avps [108; 97; 99; 49] 4242 [mkAvp true false 0 2 [1; 0]; mkAvp true false 0 10 (put16 8)]) = Ok 8.
+Proof. repeat split; vm_compute; reflexivity. Qed.
